@@ -339,36 +339,100 @@ Proof. vm_compute. repeat split; reflexivity. Qed.
 (* for a zone without transitions (empty table, offset c) the oracle that is run over implementation
    traces returns None on what the model computes, provided no probe of the window is reached by a
    range of a day before the window's first local day (the recorded finding F-C08-b) *)
-Theorem tp_cal_step_ok_model_const c rnd lb ranges prefer incs excs b e clear probes pre :
+Theorem tp_cal_step_ok_model_const c rnd lb allr ranges prefer incs excs b e clear probes pre :
   tp_ranges_bounded ranges ->
   let off := fun _ : Z => c in
   let mk := fun l : Z => l - c in
   let post := tp_update_region true (tp_script_func off mk rnd lb ranges) prefer incs excs b e clear pre in
+  tp_probes_cover probes (tp_spec_bounds c [] allr (tp_upd_begin b clear pre) e) = true ->
   (forall t d, In t probes -> tp_upd_begin b clear pre <= t < e ->
                d < tp_first_day off lb (tp_upd_begin b clear pre) -> tp_day_covers off mk false ranges d t = false) ->
-  tp_cal_step_ok c [] ranges prefer incs excs b e clear probes pre post (map (tp_is_inside post) probes) = None.
+  tp_cal_step_ok c [] allr ranges prefer incs excs b e clear probes pre post (map (tp_is_inside post) probes) = None.
 Proof.
-  intros Hb off mk post Hno. unfold tp_cal_step_ok.
+  intros Hb off mk post Hcov Hno. unfold tp_cal_step_ok.
   rewrite TpOracleProofs.tp_ins_ok_model. cbn [negb]. subst post.
   destruct (negb clear && (e <? tp_ve_num pre)) eqn:Hn.
   { unfold tp_update_region. rewrite Hn. rewrite TpOracleProofs.tp_st_eqb_refl. reflexivity. }
   assert (clear = false -> tp_ve_num pre <= e) as Hwin.
   { intros ->. cbn [negb andb] in Hn. lia. }
-  rewrite (TpOracleProofs.tp_covers_b_true _ _ _ (tp_update_region_covers true _ prefer incs excs b e clear pre Hwin)).
-  cbn [negb].
+  pose proof (tp_update_region_covers true (tp_script_func off mk rnd lb ranges) prefer incs excs b e clear pre Hwin) as Hc.
+  rewrite (TpOracleProofs.tp_covers_b_true _ _ _ Hc).
+  rewrite Hcov. cbn [negb].
   change (tp_tab_off c []) with off.
   set (b' := tp_upd_begin b clear pre) in *.
+  set (post := tp_update_region true (tp_script_func off mk rnd lb ranges) prefer incs excs b e clear pre) in *.
+  clear Hcov.
   induction probes as [|t r IH]; [reflexivity|].
-  cbn [tp_cal_first_bad].
-  match goal with |- context [tp_cal_first_bad _ _ _ _ _ _ _ _ _ ?sg r] =>
-    assert (tp_cal_first_bad c [] ranges prefer incs excs b' e (tp_local_day off b') sg r = None) as IH' end.
+  cbn [map combine tp_cal_first_bad].
+  assert (tp_cal_first_bad c [] ranges prefer incs excs b' e (tp_local_day off b') (combine r (map (tp_is_inside post) r)) = None) as IH'.
   { apply IH. intros t0 d Hin. apply Hno. right. exact Hin. }
   destruct ((b' <=? t) && (t <? e)) eqn:Hw; [|exact IH'].
   assert (b' <= t < e) as Ht by lia.
   unfold tp_cal_classify, tp_cal_expect.
   change (tp_tab_off c []) with off. change (tp_tab_mk c []) with mk.
-  rewrite tp_update_region_spec_b by exact Hwin.
+  rewrite (tp_is_inside_window post b' e t Hc) by lia.
+  subst post. rewrite tp_update_region_spec_b by exact Hwin.
   rewrite tp_own_after_window by exact Ht. fold b'. subst off mk. cbv beta in *.
   rewrite (tp_ranges_fixed_offset c rnd lb ranges b' e t Ht Hb (fun d Hd => Hno t d (or_introl eq_refl) Ht Hd)).
   rewrite Bool.eqb_reflx. exact IH'.
+Qed.
+
+(* ---------------- the oracle decides on the IsInside answers at instants taken from the written ranges ---------------- *)
+
+(* any table: an observation that answers IsInside differently from the statement at a probe of the computed window
+   is rejected - whatever segments, window and other answers it reports *)
+Theorem tp_cal_step_rejects_wrong_answer base tab allr ranges prefer incs excs b e clear probes pre post ins t o :
+  (negb clear && (e <? tp_ve_num pre)) = false ->
+  In (t, o) (combine probes ins) ->
+  tp_upd_begin b clear pre <= t < e ->
+  o <> tp_cal_expect base tab false None ranges prefer incs excs t ->
+  tp_cal_step_ok base tab allr ranges prefer incs excs b e clear probes pre post ins <> None.
+Proof.
+  intros Hn Hin Ht Ho. unfold tp_cal_step_ok.
+  destruct (negb (tp_ins_ok post probes ins)); [discriminate|].
+  rewrite Hn.
+  destruct (negb (tp_covers_b post (tp_upd_begin b clear pre) e)); [discriminate|].
+  destruct (negb (tp_probes_cover probes _)); [discriminate|].
+  set (b' := tp_upd_begin b clear pre) in *.
+  induction (combine probes ins) as [|[t1 o1] r IH]; [destruct Hin|].
+  cbn [tp_cal_first_bad].
+  destruct Hin as [Heq|Hin].
+  - inversion Heq; subst t1 o1. assert (((b' <=? t) && (t <? e)) = true) as -> by lia.
+    unfold tp_cal_classify.
+    destruct (Bool.eqb o (tp_cal_expect base tab false None ranges prefer incs excs t)) eqn:E.
+    + apply Bool.eqb_prop in E. contradiction.
+    + repeat match goal with |- context [if ?c then _ else _] => destruct c end; discriminate.
+  - destruct ((b' <=? t1) && (t1 <? e)); [|exact (IH Hin)].
+    destruct (tp_cal_classify base tab ranges prefer incs excs (tp_local_day (tp_tab_off base tab) b') t1 o1); [discriminate|].
+    exact (IH Hin).
+Qed.
+
+(* ... and it does not decide at all unless the probes contain what the written ranges ask for *)
+Theorem tp_cal_step_needs_spec_probes base tab allr ranges prefer incs excs b e clear probes pre post ins :
+  (negb clear && (e <? tp_ve_num pre)) = false ->
+  tp_probes_cover probes (tp_spec_bounds base tab allr (tp_upd_begin b clear pre) e) = false ->
+  tp_cal_step_ok base tab allr ranges prefer incs excs b e clear probes pre post ins <> None.
+Proof.
+  intros Hn Hc. unfold tp_cal_step_ok.
+  destruct (negb (tp_ins_ok post probes ins)); [discriminate|].
+  rewrite Hn.
+  destruct (negb (tp_covers_b post (tp_upd_begin b clear pre) e)); [discriminate|].
+  rewrite Hc. discriminate.
+Qed.
+
+(* what covering means: every boundary with both neighbours, and every gap of 4 s or more sampled in its middle half *)
+Lemma tp_mem_in x l : tp_mem x l = true <-> In x l.
+Proof.
+  unfold tp_mem. rewrite existsb_exists. split.
+  - intros (y & Hy & E). apply Z.eqb_eq in E. subst. exact Hy.
+  - intros H. exists x. split; [exact H|apply Z.eqb_refl].
+Qed.
+
+Theorem tp_probes_cover_bounds probes bounds u :
+  tp_probes_cover probes bounds = true -> In u bounds -> In (u - 1) probes /\ In u probes /\ In (u + 1) probes.
+Proof.
+  unfold tp_probes_cover. intros H Hu. apply andb_prop in H. destruct H as [H _].
+  rewrite forallb_forall in H. specialize (H u Hu).
+  apply andb_prop in H. destruct H as [H H3]. apply andb_prop in H. destruct H as [H1 H2].
+  rewrite tp_mem_in in H1, H2, H3. auto.
 Qed.
